@@ -244,6 +244,7 @@ def main():
             {"name": "ResourceThreads", "path": "spec/ResourceThreads.tla", "serves_properties": ["C20"], "kind_free_text": "TLA+ module + MC (safety + liveness) + stream-merging trace refinement; harness sub-command resource-run"},
             {"name": "DebugControl", "path": "spec/DebugControl.tla", "serves_properties": ["C17"],
              "kind_free_text": "TLA+ module + MC instance (safety + liveness) + nondeterministic trace refinement; harness sub-command debug-run"},
+            {"name": "EndpointDebug", "path": "spec/EndpointDebug.tla", "serves_properties": ["C17", "C20"], "kind_free_text": "TLA+ module of the control endpoint's run-control requests in front of a multi-task program + MC (safety, liveness, one deviation that must fail) + trace refinement; harness sub-command dbgep-run (real ControlServer; DebugControl of a three-task runtime / real resource thread on the wall clock)"},
             {"name": "ResourceRestart", "path": "spec/ResourceRestart.tla", "serves_properties": ["C09"], "kind_free_text": "TLA+ module of restart requests, periodic retain saves and power cycles in the resource thread loop + MC (safety, liveness, two deviation configs that must fail) + trace refinement; harness sub-command restartloop-run (real resource threads, both runners)"},
             {"name": "RetainMgr", "path": "spec/RetainMgr.tla", "serves_properties": ["C10"], "kind_free_text": "TLA+ module of RetainManager (dedupe cache in front of a store that may fail) + MC (one deviation that must fail) + trace refinement; harness sub-command retainmgr-run"},
             {"name": "RetainFile", "path": "spec/RetainFile.tla", "serves_properties": ["C10"],
